@@ -293,6 +293,8 @@ fn long_mul_case(lx: usize, ly: usize) {
         }
         i += 1;
     }
+    // operands as the callers establish them: normalised (top limb non-zero); inner limbs may be zero
+    kani::assume(xa[lx - 1] != 0 && ya[ly - 1] != 0);
     let z = long_mul(&xa[..lx], &ya[..ly]).unwrap();
     // reference: sum_j (x * y_j) << 64 j
     let rx = ref_from_slice(&xa[..lx]);
@@ -311,6 +313,42 @@ fn long_mul_case(lx: usize, ly: usize) {
     assert!(ref_eq(&value_of(&z), &acc), "C12 long_mul is the product of the values");
     assert!(is_normalized(&z), "C12 long_mul result normalised");
     kani::cover!(z.len() == lx + ly);
+}
+
+/// long_mul with CONCRETE zero limbs inside the multiplier (y = [0, y1] and y = [y0, 0, y2]):
+/// a zero limb contributes nothing but still counts for the position of the limbs above it.
+#[kani::proof]
+#[kani::unwind(10)]
+#[kani::stub(scalar_mul, stub_scalar_mul)]
+fn c12_long_mul_zero_limb() {
+    reset_uf();
+    let x0: Limb = kani::any();
+    let y1: Limb = kani::any();
+    kani::assume(x0 != 0 && y1 != 0);
+    declare_product(x0, y1);
+    let z = long_mul(&[x0], &[0, y1]).unwrap();
+    let (lo, hi) = uf_mul2(x0, y1);
+    let expect: RefNat = [0, lo, hi, 0, 0, 0, 0, 0];
+    assert!(ref_eq(&value_of(&z), &expect), "C12 long_mul: zero low limb of the multiplier shifts the product by one limb");
+}
+
+#[kani::proof]
+#[kani::unwind(10)]
+#[kani::stub(scalar_mul, stub_scalar_mul)]
+fn c12_long_mul_zero_inner_limb() {
+    reset_uf();
+    let x0: Limb = kani::any();
+    let y0: Limb = kani::any();
+    let y2: Limb = kani::any();
+    kani::assume(x0 != 0 && y2 != 0);
+    declare_product(x0, y0);
+    declare_product(x0, y2);
+    let z = long_mul(&[x0], &[y0, 0, y2]).unwrap();
+    let (a_lo, a_hi) = uf_mul2(x0, y0);
+    let (b_lo, b_hi) = uf_mul2(x0, y2);
+    // x0*y0 + x0*y2 * 2^128 : the rows do not overlap
+    let expect: RefNat = [a_lo, a_hi, b_lo, b_hi, 0, 0, 0, 0];
+    assert!(ref_eq(&value_of(&z), &expect), "C12 long_mul: a zero inner limb keeps the position of the limb above it");
 }
 
 macro_rules! long_mul_h {
@@ -344,6 +382,7 @@ fn large_mul_case(lx: usize, ly: usize) {
         }
         i += 1;
     }
+    kani::assume(x[lx - 1] != 0 && ya[ly - 1] != 0);
     let r = large_mul(&mut x, &ya[..ly]);
     assert!(r.is_some());
     let mut acc = [0u64; W];
